@@ -1061,11 +1061,50 @@ class CodeGenerator:
             lhs = self.gen_expr_code(arg, rvalue=True)
             one = self.emit(ir.Const(1, "one", lhs.ty))
             res = self.emit(ir.Binop(lhs, "+", one, "succ", lhs.ty))
+        elif expr.func == "pred":
+            # Simply subtract 1:
+            (arg,) = expr.args
+            lhs = self.gen_expr_code(arg, rvalue=True)
+            one = self.emit(ir.Const(1, "one", lhs.ty))
+            res = self.emit(ir.Binop(lhs, "-", one, "pred", lhs.ty))
         elif expr.func == "chr":
             (arg,) = expr.args
             value = self.gen_expr_code(arg, rvalue=True)
             res = self.emit(ir.Cast(value, "chr", self.get_ir_type("char")))
-        # elif expr.func == "abs":
+        elif expr.func == "ord":
+            # The ordinal number, as integer:
+            (arg,) = expr.args
+            value = self.gen_expr_code(arg, rvalue=True)
+            int_ty = self.get_ir_int()
+            if value.ty is int_ty:
+                res = value
+            else:
+                res = self.emit(ir.Cast(value, "ord", int_ty))
+        elif expr.func == "sqr" and not self.context.get_type(expr.typ).is_real:
+            (arg,) = expr.args
+            x = self.gen_expr_code(arg, rvalue=True)
+            res = self.emit(ir.Binop(x, "*", x, "sqr", x.ty))
+        elif expr.func == "odd":
+            # Lowest bit (two's complement), booleans are 0 / 1 integers:
+            (arg,) = expr.args
+            x = self.gen_expr_code(arg, rvalue=True)
+            one = self.emit(ir.Const(1, "one", x.ty))
+            res = self.emit(ir.Binop(x, "&", one, "odd", x.ty))
+        elif expr.func == "abs" and not self.context.get_type(expr.typ).is_real:
+            (arg,) = expr.args
+            x = self.gen_expr_code(arg, rvalue=True)
+            zero = self.emit(ir.Const(0, "zero", x.ty))
+            positive_block = self.builder.block
+            negative_block = self.builder.new_block()
+            final_block = self.builder.new_block()
+            self.emit(ir.CJump(x, "<", zero, negative_block, final_block))
+            self.builder.set_block(negative_block)
+            negated = self.emit(ir.Binop(zero, "-", x, "negated", x.ty))
+            self.emit(ir.Jump(final_block))
+            self.builder.set_block(final_block)
+            res = self.emit(ir.Phi("abs", x.ty))
+            res.set_incoming(positive_block, x)
+            res.set_incoming(negative_block, negated)
         elif expr.func in ["arctan", "sqrt", "sqr", "sin", "cos"]:
             (arg,) = expr.args
             x = self.gen_expr_code(arg, rvalue=True)
